@@ -266,6 +266,10 @@ def _check_piece(spec, q, zero, dbl, prec, W, overflow, data, pos, rx):
         raise Mismatch('field %r value %s: wrote %d characters %r, declared width %d'
                        % (spec.text, float(q), end - pos, data[pos:end], W))
     ip, dotch, fp = mo.group(1), mo.group(2), mo.group(3)
+    if not overflow and dotch and not ip and data[pos:pos + 1] in (b' ', b'*') and not (spec.exp and zero):
+        # GW-BASIC manual: a digit position before the point always prints a digit (0 if necessary)
+        raise Mismatch('field %r value %s: %r has room for a digit before the point but none is printed'
+                       % (spec.text, float(q), mo.group(0)))
     if spec.exp:
         if zero:
             return end, 'zero'
@@ -274,9 +278,8 @@ def _check_piece(spec, q, zero, dbl, prec, W, overflow, data, pos, rx):
         da = len(fp)
         digits = (ip if db else b'') + fp
         if not digits:
-            # no digit positions: only the exponent is shown (value = 0.d * 10^expo)
-            if expo != floor_log10(q) + 1:
-                raise Mismatch('field %r value %s: exponent %d' % (spec.text, float(q), expo))
+            # no digit positions (the only one went to the sign): nothing but E+dd is shown; the exponent of
+            # a mantissa-less number is not checked (the code documents " E+01" for 1 as GW-BASIC's output)
             return end, 'nodigits'
         if digits[:1] == b'0':
             raise Mismatch('field %r value %s: mantissa %r not normalised' % (spec.text, float(q), mo.group(0)))
@@ -414,7 +417,7 @@ class C08(core.Check):
     GEN = ['gen_using']
     PROPS = 'props/C08.v'
     MODEL_IMPORTS = ['gen.Gen_using', 'model.Using']
-    QUICK_CASES = 1500
+    QUICK_CASES = 1100
     THOROUGH_CASES = 16000
     TRUSTED = ['hand model model/Using.v of formatter.py (StringField/NumberField scanners and format, '
                '_print_using) and of numbers.Float.to_str_fixed/to_str_scientific/_group_thousands/'
@@ -573,11 +576,14 @@ class C08(core.Check):
         S, D = single_of, double_of
         C = self._case
         c = [
-            # witnesses of D08a, D08b, D08c
+            # witnesses of D08a, D08b, D08c, D08d
             C(b'#.#', [S('0.06')]), C(b'#.##', [S('0.006')]), C(b'#.###', [D('0.0006')]), C(b'.##', [S('0.001')]),
             C(b'## $', [['%', 5]]), C(b'##*', [['%', 5]]), C(b'$', [['%', 5]]), C(b'## $', [['%', 5], ['%', 6]]),
             C(b'##.##^^^^', [S('9.996')]), C(b'##^^^^', [['%', 96]]), C(b'##.#^^^^', [D('9.95')]),
             C(b'###^^^^', [S('0.996')]),
+            # D08d
+            C(b'$$#.##', [S('0.5')]), C(b'$$.', [['%', 0]]), C(b'**$.##', [S('-0.5')]), C(b'**$.', [S('0')]),
+            C(b'+$$#.##', [S('0.5')]), C(b'$$#.##-', [D('-0.5')]),
             # the repository's own GW-BASIC test vectors (tests/basic/unsorted/USING)
             C(b'abc', [['%', 1]]), C(b'abc #', [['%', 1], ['%', 2]]), C(b'_# #', [['%', 2]]),
             C(b' # ', [['%', i] for i in range(1, 6)], sep=','),
